@@ -310,7 +310,8 @@ def check_sorted_move(C, fn, name, dom, leaves, facts0, rep, exit_vals):
     n0 = S('num_')
     loc = fn.loc(fn.entry.instrs[0])
     L = fm.le
-    evs = [v for (f_, h_), v in exit_vals.items() if f_ == fn.name and (('b' in v and 'i' in v) or ('i' in v and 'r' in v))]
+    # the end of the search interval that closes on the insertion point: the upper end for sort_fore (b <= i, i = m - 1), the lower one otherwise
+    evs = [{'i': v['hi' if base == 'sort_fore' else 'lo']} for (f_, h_), v in exit_vals.items() if f_ == fn.name]
     probs, unk, nq, nmoves = [], [], 0, 0
     for lf in leaves:
         st = status_of(lf, dom)
